@@ -827,6 +827,42 @@ func Replay(eng *Engine, vc *VC, cfg checkCfg, scratch string) *ReplayResult {
 	return rr
 }
 
+// scenarioReplay runs a scenario driver (marked // QEDVC-SCENARIO) for an obligation that
+// failed without a replayable model. It needs no values from the solver.
+func scenarioReplay(eng *Engine, vc *VC, cfg checkCfg, scratch string) *ReplayResult {
+	fn, _ := findFuncByKey(eng, vc.Func)
+	if fn == nil {
+		return nil
+	}
+	top := fn
+	for top.Parent() != nil {
+		top = top.Parent()
+	}
+	if top.Pkg == nil {
+		return nil
+	}
+	// <obligation>.go.txt and any number of <obligation>.<tag>.go.txt: tried in turn
+	base := strings.TrimSuffix(driverFile(cfg, vc), ".go.txt")
+	files, _ := filepath.Glob(base + ".*go.txt")
+	sort.Strings(files)
+	var last *ReplayResult
+	for _, f := range files {
+		b, err := os.ReadFile(f)
+		if err != nil || !strings.Contains(string(b), "// QEDVC-SCENARIO") {
+			continue
+		}
+		rr := replayWithDriverFile(eng, vc, &model{vals: map[string]*sx{}}, cfg, scratch, top, f)
+		if rr != nil {
+			rr.Why = "driver " + f
+			last = rr
+			if rr.Confirmed {
+				return rr
+			}
+		}
+	}
+	return last
+}
+
 var replayCounter int
 
 // runReplayTest injects src as <pkg>/qedvc_replay_test.go via -overlay and runs it.
@@ -870,7 +906,12 @@ func runReplayTest(eng *Engine, pkgPath, src, scratch string) *ReplayResult {
 	cmd.Stdout = &out
 	cmd.Stderr = &out
 	_ = cmd.Run()
-	return &ReplayResult{Cmd: "cd " + repoDir + " && go " + strings.Join(args, " "), TestSrc: src, Output: truncate(out.String(), 8000)}
+	o := out.String()
+	if len(o) > 8000 {
+		// keep both ends: the verdict of the test run is at the end
+		o = o[:4000] + "\n… [output shortened] …\n" + o[len(o)-4000:]
+	}
+	return &ReplayResult{Cmd: "cd " + repoDir + " && go " + strings.Join(args, " "), TestSrc: src, Output: o}
 }
 
 var _ = json.Marshal
@@ -888,7 +929,11 @@ func driverFile(cfg checkCfg, vc *VC) string {
 }
 
 func replayWithDriver(eng *Engine, vc *VC, m *model, cfg checkCfg, scratch string, fn *ssa.Function) *ReplayResult {
-	b, err := os.ReadFile(driverFile(cfg, vc))
+	return replayWithDriverFile(eng, vc, m, cfg, scratch, fn, driverFile(cfg, vc))
+}
+
+func replayWithDriverFile(eng *Engine, vc *VC, m *model, cfg checkCfg, scratch string, fn *ssa.Function, file string) *ReplayResult {
+	b, err := os.ReadFile(file)
 	if err != nil {
 		return nil
 	}
@@ -934,8 +979,20 @@ func replayWithDriver(eng *Engine, vc *VC, m *model, cfg checkCfg, scratch strin
 		}
 		return "int64(" + v.String() + ")", true
 	})
-	rr := runReplayTest(eng, fn.Pkg.Pkg.Path(), src, scratch)
-	rr.Confirmed = strings.Contains(rr.Output, "QEDVC-REPLAY: POST-VIOLATED") || strings.Contains(rr.Output, "QEDVC-REPLAY: PANIC") ||
+	// a driver may live in another package than the function (e.g. it drives it through the API):
+	//   // QEDVC-PKG: github.com/bbva/qed/protocol
+	pkgPath := fn.Pkg.Pkg.Path()
+	if i := strings.Index(src, "// QEDVC-PKG: "); i >= 0 {
+		rest := src[i+len("// QEDVC-PKG: "):]
+		if j := strings.IndexByte(rest, '\n'); j > 0 {
+			pkgPath = strings.TrimSpace(rest[:j])
+		}
+	}
+	rr := runReplayTest(eng, pkgPath, src, scratch)
+	// a scenario test (it passes on code that has the property): its failure is a failing input
+	scenarioFailed := strings.Contains(src, "// QEDVC-SCENARIO") && !strings.Contains(rr.Output, "[build failed]") &&
+		(strings.Contains(rr.Output, "--- FAIL: TestQedvcReplay") || strings.Contains(rr.Output, "fatal error: stack overflow") || strings.Contains(rr.Output, "panic: test timed out"))
+	rr.Confirmed = strings.Contains(rr.Output, "QEDVC-REPLAY: POST-VIOLATED") || strings.Contains(rr.Output, "QEDVC-REPLAY: PANIC") || scenarioFailed ||
 		(strings.Contains(src, "// QEDVC-GOFLAGS: -race") && strings.Contains(rr.Output, "WARNING: DATA RACE"))
 	rr.Why = "driver " + driverFile(cfg, vc)
 	return rr
